@@ -12,7 +12,7 @@ import tlcrun  # noqa: E402
 NPROC = int(os.environ.get("VERIF_NPROC", "16"))
 
 MC_INVARIANTS = ["Inv_C01_ParentChild", "Inv_C01_PinWire", "Inv_C02_RefSets", "Inv_C02_OuterPins",
-                 "Inv_C02_Dropped"]
+                 "Inv_C02_Dropped", "Inv_C10_Unique", "Inv_C10_LegalIds"]
 
 
 def mc_cfg(scope, depth, emit, module_consts=""):
@@ -26,16 +26,20 @@ def generate(scope, depth, module="MC", timeout=3600):
     """model-check the scope; returns (tlc result, init calls, groups=[(hist, cands)])"""
     groups = []
     init = []
+    lookup = []
 
     def on_line(line):
         if line.startswith('<<"ST", '):
             rec = tlcrun.parse_print(line, "ST")
             groups.append((rec["h"], rec["c"]))
         elif line.startswith('<<"INIT", '):
-            init[:] = tlcrun.parse_print(line, "INIT")["init"]
+            rec = tlcrun.parse_print(line, "INIT")
+            init[:] = rec["init"]
+            lookup[:] = sorted(rec.get("lookup", []))
 
     res = tlcrun.run(module, mc_cfg(scope, depth, True), workers=NPROC, heap="8g", on_line=on_line,
                      timeout=timeout)
+    res["lookup"] = list(lookup)
     return res, list(init), groups
 
 
@@ -45,8 +49,9 @@ def _call_key(c):
 
 def replay_slice(args):
     """worker: replay a slice of groups, write one NDJSON shard.  Returns statistics."""
-    idx, init, groups, path = args
+    idx, init, groups, path, lookup = args
     import harness
+    harness.LOOKUP_VALUES = list(lookup)
     st = {"groups": 0, "calls": 0, "ok": 0, "refused": 0, "changed_refused": 0, "unbuildable": 0,
           "exc": {}, "nontrivial_refused": set(), "harness_errors": []}
     n = 0
@@ -92,10 +97,10 @@ def replay_slice(args):
     return st
 
 
-def replay(init, groups, outdir, nshards=None):
+def replay(init, groups, outdir, nshards=None, lookup=()):
     nshards = nshards or NPROC
     os.makedirs(outdir, exist_ok=True)
-    slices = [(i, init, groups[i::nshards], os.path.join(outdir, "shard%02d.ndjson" % i))
+    slices = [(i, init, groups[i::nshards], os.path.join(outdir, "shard%02d.ndjson" % i), list(lookup))
               for i in range(nshards)]
     slices = [s for s in slices if s[2]]
     with mp.Pool(min(NPROC, len(slices))) as pool:
@@ -146,7 +151,7 @@ if __name__ == "__main__":
     print("generate", res["wall_s"], "s states", res["states"], "distinct", res["distinct"], "groups",
           len(groups), "ok", res["ok"], res["errors"][:5])
     out = tlcrun.scratch("irflow-")
-    shards, stats = replay(init, groups, out)
+    shards, stats = replay(init, groups, out, lookup=res["lookup"])
     tot = {k: sum(s[k] for s in stats) for k in ("groups", "calls", "ok", "refused", "changed_refused",
                                                    "unbuildable", "records", "nontrivial_refused")}
     print("replay", round(time.time() - t0, 1), tot, [s["harness_errors"][:2] for s in stats if s["harness_errors"]][:3])
